@@ -314,10 +314,11 @@ def _lane(prop_mod, specs, out_path, wall):
         for spec in specs:
             if timeouts >= 2:
                 # a hanging library (e.g. a mutant that loops forever) must not keep the check busy for hours
-                res = {"harness_error": "skipped: two earlier runs of this lane exceeded the wall limit"}
+                res = {"harness_error": "skipped: two earlier runs of this lane were killed at the wall limit"}
             else:
                 res = fork_execute(prop_mod, spec, wall)
-                if "exceeded wall limit" in res.get("harness_error", ""):
+                he = res.get("harness_error", "")
+                if "exceeded wall limit" in he or "died without a result" in he:
                     timeouts += 1
             res["_i"] = spec["_i"]
             f.write(json.dumps(res) + "\n")
